@@ -309,6 +309,11 @@ class ErrorsContained(Monitor):
                             continue
                     return True
             return False
+        if k == "dispatch_failed_wf" and op == "dispatch" and pre["state"] is not None:
+            # a clean-up task (run on fail) is rendered although the workflow already failed
+            if pre["status"] != st.FAILED:
+                return False
+            return any(s["id"] == t["task"] and s["ready"] and s.get("run_on_fail") for s in pre["state"]["staged"])
         if k == "complete" and op in ("complete", "release"):
             a = res.extra.get("action") or move[4]
             if a[0] != t["task"]:
